@@ -311,8 +311,12 @@ func (e *env) skillPaths(s *scenario) (byName, real string, ok bool) {
 }
 
 var (
-	cwds  = []string{"/work/proj", "/w", "/home/u/src/app", "/", "/srv/a b/c"}
-	homes = []string{"/home/u", "/root", "/h", "/home/u/src"}
+	cwds = []string{"/work/proj", "/w", "/home/u/src/app", "/", "/srv/a b/c",
+		"/home/u",                                          // the project IS the home directory
+		"/work/app [wip", "/work/proj[12]", "/work/what?*", // glob metacharacters are ordinary characters in directory names
+		"/data/プロジェクト/-leading-dash/.hidden",                                                             // unicode, a leading dash, a dot directory
+		"/l/" + strings.Repeat("very-long-directory-name-", 9) + "x/" + strings.Repeat("d/", 40) + "end"} // a component of 226 bytes, 45 levels
+	homes = []string{"/home/u", "/root", "/h", "/home/u/src", "/", "/home/ü ser/.h-ome"}
 	modes = []uint32{0o600, 0o644, 0o444, 0o640, 0o755}
 )
 
@@ -329,7 +333,8 @@ func genScenario(e *env, r *rng, id string, withFaultyPre bool) scenario {
 			e.skillDir, "x/" + e.skillDir, e.skillDir + "/" + e.skillDir, "references", "skills/SKILL.md", ".claude/skills"})
 	case 4:
 		s.Path = pick(r, []string{"/opt/skills", "/work/proj/.claude/skills", "/x/y/", "/home/u/.config/z",
-			"/opt/" + e.skillDir, "/opt/" + e.skillDir + "/", "/srv/references"})
+			"/opt/" + e.skillDir, "/opt/" + e.skillDir + "/", "/srv/references",
+			"/p/" + strings.Repeat("n", 255) + "/skills", "/" + strings.Repeat("a/b/", 60) + "skills", "/opt/-rf/--user", "/opt/ünï çode/skills", "/opt/me*/skills", `/opt/out\dir/skills`, "/opt/[ab/skills"})
 	case 5:
 		s.Path = pick(r, []string{"rel", "/abs/p"})
 		s.User = true
@@ -452,6 +457,16 @@ func genScenario(e *env, r *rng, id string, withFaultyPre bool) scenario {
 			if r.chance(1, 2) {
 				s.Pre = append(s.Pre, preOp{Op: "write", Path: simos.Clean(c), Data: "unrelated " + nonce + " " + c, Mode: pick(r, modes)})
 			}
+		}
+	}
+	// directories a pattern match over the path would confuse with the destination, holding
+	// another process's in-flight temp files
+	if strings.ContainsAny(skill, "*?[\\") && r.chance(2, 3) {
+		sib := strings.NewReplacer("[12]", "1", "*", "-backup", "?", "x", "\\", "", "[", "").Replace(skill)
+		if sib != skill {
+			add("sibling_matching_a_glob_of_the_path")
+			s.Pre = append(s.Pre, preOp{Op: "write", Path: sib + "/.tmp-424242", Data: "someone else's temp file " + nonce, Mode: 0o600},
+				preOp{Op: "write", Path: sib + "/references/.tmp-434343", Data: "someone else's temp file " + nonce, Mode: 0o600})
 		}
 	}
 	// other installations of the same agent further up: in an ancestor of the current directory
